@@ -331,6 +331,17 @@ theorem C01_layout_independent_full (fs fs' : FFields) (gt gt' : Bytes)
       T.map Tok.erase = T'.map Tok.erase :=
   layout_independent_full fs fs' gt gt' hgt hgt' hv hv' hb hb' hc
 
+/-- C01_faithful_full behind a UTF-8 BOM: the same tape, the BOM flag set. -/
+theorem C01_faithful_full_bom (fs : FFields) (gt : Bytes) (hgt : Blank gt) (hv : FValidF fs gt)
+    (hb : hasBom (frenderF fs ++ gt) = false) :
+    ∃ T, parse (0xef :: 0xbb :: 0xbf :: (frenderF fs ++ gt)) = .ok T true ∧ T.map Tok.erase = dtapeF fs 0 :=
+  faithful_full_bom fs gt hgt hv hb
+
+example : ∃ T, parse (0xef :: 0xbb :: 0xbf :: (frenderF exampleMixed.toF ++ [10])) = .ok T true ∧
+    T.map Tok.erase = dtapeF exampleMixed.toF 0 :=
+  C01_faithful_full_bom exampleMixed.toF [10] exampleMixed_valid.2.1
+    (toF_validF _ _ exampleMixed_valid.1) (by rw [toF_renderF]; exact exampleMixed_valid.2.2)
+
 /-- the earlier document type is inside the full one: same bytes, valid, same expected tape — so
 `C01_faithful_full` covers everything `C01_faithful_partial` covers. -/
 theorem C01_full_covers_tree (fs : JFields) (gt : Bytes) (hv : JValidF fs gt) :
@@ -342,6 +353,12 @@ example : ∃ T, parse (frenderF exampleMixed.toF ++ [10]) = .ok T false ∧
     T.map Tok.erase = dtapeF exampleMixed.toF 0 :=
   C01_faithful_full exampleMixed.toF [10] exampleMixed_valid.2.1
     (toF_validF _ _ exampleMixed_valid.1) (by rw [toF_renderF]; exact exampleMixed_valid.2.2)
+
+/-- … also on a shape that is new in the full document type (`a={b=c d e {f=g}}`) -/
+example : ∃ T, parse (frenderF exampleFullValid ++ [10]) = .ok T false ∧
+    T.map Tok.erase = dtapeF exampleFullValid 0 :=
+  C01_faithful_full exampleFullValid [10] exampleFullValid_valid.2.1 exampleFullValid_valid.1
+    exampleFullValid_valid.2.2
 
 /-- `x={a=b c d {e=f} 0=2 {1 2} g}`: a mixed container whose array part holds scalars, an object,
 an `0=2` group and an array -/
